@@ -116,6 +116,7 @@ type Handle struct {
 // Result is what one program execution produced.
 type Result struct {
 	Violations   []Violation
+	Tolerated    []Violation // known, purely observational violations after which the run continued
 	Inconclusive string // non-empty => execution inconclusive (watchdog)
 	Steps        int
 	Counters     map[string]int64
@@ -138,6 +139,11 @@ type Runner struct {
 	lastFullComp uint64
 	lastPartComp uint64
 	lastPersists uint64
+
+	// Tolerate, when set, is asked about violations of purely
+	// observational oracles (gauges); a tolerated one is recorded and
+	// the execution continues.
+	Tolerate func(Violation) bool
 
 	// KeepOpen: leave everything open after Run (debugging tools).
 	KeepOpen bool
@@ -169,8 +175,17 @@ func NewRunner(p *Program, o Oracles, dir string) *Runner {
 }
 
 func (r *Runner) viol(oracle, class, disc, detail string) {
-	r.Res.Violations = append(r.Res.Violations, Violation{
-		Property: r.P.Prop, Oracle: oracle, Class: class, Disc: disc, Detail: detail, Step: r.step})
+	v := Violation{Property: r.P.Prop, Oracle: oracle, Class: class, Disc: disc, Detail: detail, Step: r.step}
+	if oracle == "gauges" && r.Tolerate != nil && r.Tolerate(v) {
+		for _, t := range r.Res.Tolerated {
+			if t.Class == class && t.Disc == disc {
+				return
+			}
+		}
+		r.Res.Tolerated = append(r.Res.Tolerated, v)
+		return
+	}
+	r.Res.Violations = append(r.Res.Violations, v)
 }
 
 func (r *Runner) cnt(name string, n int) { r.Res.Counters[name] += int64(n) }
